@@ -18,7 +18,6 @@ import (
 	"fmt"
 	"sort"
 	"strings"
-	"sync"
 	"testing"
 
 	"github.com/hashicorp/go-hclog"
@@ -624,10 +623,10 @@ func zvDumpOf(rows []zvRow, keep func(owner string) bool) *dump.Dump {
 // must stay put.
 func zvSharedIndexAllowed(key string) bool {
 	switch key {
-	case "nodes", "services", "checks", "service-virtual-ips", "free-virtual-ips", "partition.default:service-virtual-ips", "partition.default:service-virtual-ips.imported":
+	case "nodes", "services", "checks", "service-virtual-ips", "service-virtual-ips.imported":
 		return true
 	}
-	return strings.HasPrefix(key, "service_kind.") || strings.HasPrefix(key, "service-virtual-ips")
+	return strings.HasPrefix(key, "service_kind.")
 }
 
 // ---------------------------------------------------------------------------------------------
@@ -1562,7 +1561,7 @@ func TestZZVerifC17(t *testing.T) {
 	run.Assume(
 		"node-level data is shared by all services of a peer on that node: for the updated service strict equality of node-level checks is demanded for entries that existed before; when an entry is NEW on an already imported node, node checks that were stored before and are absent from the snapshot may remain (they stem from other services' snapshots); node fields are last-writer-wins",
 		"documented rewrites ignored in MIRROR: PeerName/partition overridden by the importer, raft indexes, the consul-virtual tagged address the importing store assigns to connect proxies, ServiceTags copied onto checks by the store; Locality is not modelled (Node.ToRegisterRequest drops it)",
-		"global per-table max-index rows (nodes, services, checks, service_kind.*, service-virtual-ips*) and the free-virtual-ips allocator pool are shared bookkeeping, not data of a cluster/peer; every other row of every table is attributed by its PeerName field (index rows by their peer.<name>: prefix)",
+		"global per-table max-index rows (nodes, services, checks, service_kind.*, service-virtual-ips, service-virtual-ips.imported) and the free-virtual-ips allocator pool are shared bookkeeping, not data of a cluster/peer; every other row of every table is attributed by its PeerName field (index rows by their peer.<name>: prefix)",
 		"CE build: partitions/namespaces/sameness groups not exercised; trust bundle and server-address resources not exercised")
 	rng := core.NewRand(core.Seed())
 
@@ -1572,44 +1571,28 @@ func TestZZVerifC17(t *testing.T) {
 	for h := range forks {
 		forks[h] = rng.Fork(uint64(h))
 	}
-	workers := 1
-	if core.Thorough() {
-		workers = 8
+	for h := 0; h < nh && run.Violations() < 30; h++ {
+		zvRunHistory(run, h, forks[h], steps)
 	}
-	var wg sync.WaitGroup
-	ch := make(chan int)
-	for i := 0; i < workers; i++ {
-		wg.Add(1)
-		go func() {
-			defer wg.Done()
-			for h := range ch {
-				if run.Violations() < 30 {
-					zvRunHistory(run, h, forks[h], steps)
-				}
-			}
-		}()
-	}
-	for h := 0; h < nh; h++ {
-		ch <- h
-	}
-	close(ch)
-	wg.Wait()
 	run.CountN("import:histories", nh)
 
 	zvExportSide(run)
 
-	for _, c := range []string{"instance-added", "instance-removed", "instance-moved-to-other-node", "node-removed", "node-kept-after-losing-instance",
-		"node-check-removed-node-kept", "service-check-removed-instance-kept", "upsert-empty-deletes-service", "snapshot-node-shared-with-other-service",
-		"list-shrink-prunes-imported-service", "list-grow", "fields-only"} {
-		run.Floor("effect:"+c, 10)
+	for c, min := range map[string]int{"instance-added": 500, "instance-removed": 300, "instance-moved-to-other-node": 80, "node-removed": 300,
+		"node-kept-after-losing-instance": 80, "node-check-removed-node-kept": 30, "service-check-removed-instance-kept": 30,
+		"upsert-empty-deletes-service": 80, "snapshot-node-shared-with-other-service": 250, "list-shrink-prunes-imported-service": 100,
+		"list-grow": 300, "fields-only": 200} {
+		run.Floor("effect:"+c, min)
 	}
-	run.Floor("pairs:upsert", 1000)
-	run.Floor("pairs:list", 200)
-	run.Floor("collision:node-name:local", 500)
-	run.Floor("collision:node-name:other-peer", 300)
-	run.Floor("collision:node+service-id:local", 200)
-	run.Floor("collision:node+service-id:other-peer", 100)
-	run.Floor("collision:node+check-id:local", 100)
+	run.Floor("pairs:upsert", 4000)
+	run.Floor("pairs:list", 1000)
+	run.FloorDistinct("prior-depth", steps)
+	run.Floor("collision:node-name:local", 3000)
+	run.Floor("collision:node-name:other-peer", 1000)
+	run.Floor("collision:node+service-id:local", 1500)
+	run.Floor("collision:node+service-id:other-peer", 200)
+	run.Floor("collision:node+check-id:local", 1500)
+	run.Floor("collision:node+check-id:other-peer", 400)
 	run.Floor("export:queries", 16000)
 	run.Floor("export:discriminating-configs", 1000)
 	if run.Finish() == 1 {
